@@ -209,6 +209,34 @@ func keeperType(p *Prog, fn *ssa.Function) *types.Named {
 			}
 		}
 	})
+	// Stated limit: the state of the loop is tracked per struct FIELD.  Two instances of the same
+	// record type (a {timer, pending} pair used once for the refresh and once for the reconnect)
+	// would be one set of cells: the loop cannot be decided, and is not judged.
+	if kt != nil {
+		instances := 0
+		eachInstr(fn, func(in ssa.Instruction) {
+			al, ok := in.(*ssa.Alloc)
+			if !ok {
+				return
+			}
+			elem := al.Type().Underlying().(*types.Pointer).Elem()
+			if namedOf(elem) == kt {
+				if _, isPtr := elem.(*types.Pointer); !isPtr {
+					instances++
+				}
+			}
+			if st, ok := elem.Underlying().(*types.Struct); ok && namedOf(elem) != kt {
+				for i := 0; i < st.NumFields(); i++ {
+					if namedOf(st.Field(i).Type()) == kt {
+						instances++
+					}
+				}
+			}
+		})
+		if instances > 1 {
+			fatalf("anchor: the maintenance loop %s keeps %d instances of the record type %s (a timer with its flag) as its state: the loop simulation tracks state per struct field and cannot tell the instances apart", fn.Name(), instances, kt.Obj().Name())
+		}
+	}
 	return kt
 }
 
@@ -219,6 +247,22 @@ func keeperFuncs(p *Prog, fn *ssa.Function, kt *types.Named) []*ssa.Function {
 		return nil
 	}
 	out := p.methodsOf(kt)
+	// the arms of the loop may also be private functions (methods of the loop's owner) that are
+	// handed the state struct
+	for _, h := range withCallees(p, fn, 2) {
+		if h == fn || h.Parent() != nil || !onlyCalledFrom(p, h, fn, 2) {
+			continue
+		}
+		takes := false
+		for _, par := range h.Params {
+			if namedOf(par.Type()) == kt {
+				takes = true
+			}
+		}
+		if takes && recvNamed(h) != kt {
+			out = append(out, h)
+		}
+	}
 	eachCall(fn, func(c ssa.CallInstruction) {
 		if callee := c.Common().StaticCallee(); callee != nil && p.InRepo(callee) && callee.Blocks != nil && callee.Signature.Recv() == nil &&
 			callee.Signature.Results().Len() == 1 && namedOf(callee.Signature.Results().At(0).Type()) == kt {
@@ -1267,6 +1311,17 @@ func c16Heartbeats(p *Prog, r *Report) {
 			}
 			ok := false
 			var why string
+			if neg == nil {
+				// the handshake phase may live in a private helper that is handed the connection
+				if viaHelper, desc := heartbeatVersionViaHelper(p, fn, in, hs, conn, v); viaHelper {
+					owner := ""
+					if rn := recvNamed(fn); rn != nil {
+						owner = rn.Obj().Name() + "."
+					}
+					r.check(desc == "", rule, "start@"+owner+fn.Name(), p.Pos(in.Pos()), "negotiated version (handshake in a helper)", desc)
+					return
+				}
+			}
 			switch {
 			case neg == nil:
 				why = "no handshake of this connection in " + fn.Name()
@@ -1354,6 +1409,11 @@ func connectBounded(p *Prog, r *Report, rule string) {
 		}
 	}
 	fromCtx := func(v ssa.Value) bool {
+		for _, o := range origins(v) {
+			if o == ctxPar {
+				return true
+			}
+		}
 		for _, o := range originsInter(p, v, 1) {
 			if o == ctxPar {
 				return true
@@ -1416,4 +1476,139 @@ func connectBounded(p *Prog, r *Report, rule string) {
 		})
 	}
 	r.check(len(bad) == 0 && n >= 2, rule, "proxycore."+fn.Name(), p.Pos(fn.Pos()), fmt.Sprintf("%d waiting steps, all under the context", n), strings.Join(dedupe(bad), " || "))
+}
+
+// heartbeatVersionViaHelper: the start of the heartbeat loop (at in, in fn) follows a call of a
+// private helper that performs the handshake of this connection.  Found reports whether such a
+// helper exists; problem is empty when the heartbeat version is the version the helper requested
+// and compared equal to the negotiated one on every path on which it reports success, and the
+// start is reached only after the helper reported success.
+func heartbeatVersionViaHelper(p *Prog, fn *ssa.Function, in ssa.Instruction, hs *ssa.Function, conn, v ssa.Value) (found bool, problem string) {
+	var helper *ssa.Function
+	var hcall *ssa.Call
+	connIdx := -1
+	eachCall(fn, func(c ssa.CallInstruction) {
+		callee := c.Common().StaticCallee()
+		cc, isCall := c.(*ssa.Call)
+		if callee == nil || !isCall || callee.Blocks == nil || callee == hs || !p.InRepo(callee) || pkgOfFn(callee) != pkgOfFn(fn) || !onlyCalledFrom(p, callee, fn, 1) {
+			return
+		}
+		for i, a := range c.Common().Args {
+			if sameValue(a, conn) && i < len(callee.Params) {
+				par := callee.Params[i]
+				if callsDirectly(callee, func(c2 ssa.CallInstruction) bool {
+					return c2.Common().StaticCallee() == hs && len(c2.Common().Args) > 0 && c2.Common().Args[0] == ssa.Value(par)
+				}) {
+					helper, hcall, connIdx = callee, cc, i
+				}
+			}
+		}
+	})
+	if helper == nil {
+		return false, ""
+	}
+	_ = connIdx
+	// inside the helper: negotiated and requested version
+	var neg, req ssa.Value
+	eachCall(helper, func(c ssa.CallInstruction) {
+		if c.Common().StaticCallee() != hs {
+			return
+		}
+		if cv, ok := c.(ssa.Value); ok {
+			for _, ref := range *cv.Referrers() {
+				if ex, ok := ref.(*ssa.Extract); ok && ex.Index == 0 {
+					neg = ex
+				}
+			}
+		}
+		for _, a := range c.Common().Args[1:] {
+			if typeIs(a.Type(), "primitive", "ProtocolVersion") {
+				req = a
+			}
+		}
+	})
+	if neg == nil || req == nil {
+		return true, "the helper " + helper.Name() + " does not keep the version its handshake negotiated"
+	}
+	// field paths relative to the receiver (the helper is called on fn's own receiver)
+	rel := func(f *ssa.Function, x ssa.Value) string {
+		pth := fieldPath(x)
+		if len(f.Params) > 0 && strings.HasPrefix(pth, f.Params[0].Name()+".") {
+			return "recv." + strings.TrimPrefix(pth, f.Params[0].Name()+".")
+		}
+		return pth
+	}
+	sameRecv := len(hcall.Call.Args) > 0 && len(fn.Params) > 0 && hcall.Call.Args[0] == ssa.Value(fn.Params[0])
+	if !sameRecv || !strings.HasPrefix(rel(fn, v), "recv.") || rel(fn, v) != rel(helper, req) {
+		return true, "the heartbeat version is " + valDesc(v) + ", not the version the handshake in " + helper.Name() + " requested and compared with the negotiated one"
+	}
+	// every successful return of the helper compared the negotiated version equal to the requested one
+	okRets := true
+	eachInstr(helper, func(i2 ssa.Instruction) {
+		ret, ok := i2.(*ssa.Return)
+		if !ok || len(ret.Results) == 0 {
+			return
+		}
+		last := ret.Results[len(ret.Results)-1]
+		isNil := false
+		for _, o := range origins(last) {
+			if k, ok := o.(*ssa.Const); ok && k.IsNil() {
+				isNil = true
+			}
+		}
+		if !isNil {
+			return
+		}
+		cmp := false
+		for _, ct := range dominatingConds(ret.Block()) {
+			bo, isBo := ct.Cond.(*ssa.BinOp)
+			if !isBo {
+				continue
+			}
+			pair := (bo.X == neg && rel(helper, bo.Y) == rel(helper, req)) || (bo.Y == neg && rel(helper, bo.X) == rel(helper, req))
+			if pair && ((bo.Op == token.NEQ && !ct.Truth) || (bo.Op == token.EQL && ct.Truth)) {
+				cmp = true
+			}
+		}
+		if !cmp {
+			okRets = false
+		}
+	})
+	if !okRets {
+		return true, helper.Name() + " can report success without having compared the negotiated version with the requested one: after a downgrade the heartbeats would use a version the connection does not speak"
+	}
+	// the start is reached only after the helper reported success
+	after := false
+	for _, ct := range dominatingConds(in.Block()) {
+		bo, isBo := ct.Cond.(*ssa.BinOp)
+		if !isBo {
+			continue
+		}
+		isNilC := func(x ssa.Value) bool { k, ok := x.(*ssa.Const); return ok && k.IsNil() }
+		var other ssa.Value
+		switch {
+		case isNilC(bo.Y):
+			other = bo.X
+		case isNilC(bo.X):
+			other = bo.Y
+		default:
+			continue
+		}
+		fromHelper := false
+		for _, o := range origins(other) {
+			if o == ssa.Value(hcall) {
+				fromHelper = true
+			}
+			if ex, ok := o.(*ssa.Extract); ok && ex.Tuple == ssa.Value(hcall) {
+				fromHelper = true
+			}
+		}
+		if fromHelper && ((bo.Op == token.NEQ && !ct.Truth) || (bo.Op == token.EQL && ct.Truth)) {
+			after = true
+		}
+	}
+	if !after {
+		return true, "the heartbeat loop is started without " + helper.Name() + " having reported success"
+	}
+	return true, ""
 }
